@@ -52,17 +52,22 @@ structure PGen (α : Type) where
 
 def PGen.new (t : PT α) : PGen α := ⟨[], Dfs.new t t, 0⟩
 
+/-- the predicate stack for the next reported node: cut back to the node's depth, then the half-space of the edge
+    from its parent (looked up in the arena) is pushed -/
+def PGen.predsNext (whole : PT α) (preds : List (Aff α)) (lastDepth : Nat) (it : Item) : List (Aff α) :=
+  let preds1 := if it.depth ≤ lastDepth then preds.take (preds.length - (1 + lastDepth - it.depth)) else preds
+  match whole.parentOf? it.idx with
+  | some (p, l) =>
+    match whole.find? p with
+    | some pn => preds1 ++ [halfspace pn.val.aff l]
+    | none => preds1
+  | none => preds1
+
 def PGen.next (whole : PT α) (g : PGen α) : Option ((Item × List (Aff α)) × PGen α) :=
   match g.iter.next with
   | none => none
   | some (it, it') =>
-    let preds1 := if it.depth ≤ g.lastDepth then g.preds.take (g.preds.length - (1 + g.lastDepth - it.depth)) else g.preds
-    let preds2 := match whole.parentOf? it.idx with
-      | some (p, l) =>
-        match whole.find? p with
-        | some pn => preds1 ++ [halfspace pn.val.aff l]
-        | none => preds1
-      | none => preds1
+    let preds2 := PGen.predsNext whole g.preds g.lastDepth it
     some ((it, preds2), ⟨preds2, it', it.depth⟩)
 
 def PGen.skip (g : PGen α) : PGen α := { g with iter := g.iter.skip }
